@@ -653,6 +653,92 @@ func c13Clone(tier string, idx int, r *Result) {
 			}
 		}
 	}
+	// Both sides change after the clone was taken, from states a list reaches by growing and
+	// shrinking (a drained list keeps what it once allocated): the original gets one element,
+	// the clone another one.
+	if t.K == mkList {
+		other := func() *mval { // a second fresh element, different from freshFor where the type has two values
+			f := freshFor(t.Elem)
+			switch f.K {
+			case mInt:
+				return vI(8)
+			case mFloat:
+				return vF(8.5)
+			case mStr:
+				return vS("y")
+			case mBool:
+				return vB(false)
+			case mList:
+				return vL()
+			case mOpt:
+				return vNone()
+			}
+			return f
+		}
+		callOn := func(v *value.Value, member string, args ...value.Value) string {
+			pc, _ := guard("runtime/value."+member, func() {
+				fs, _ := (*v).Fields()
+				(*fs[member]).(value.ValueBuiltinFunction).Callback(nil, nil, noSpan, args...)
+			})
+			return pc
+		}
+		for _, v := range vals {
+			for _, pre := range []string{"as-built", "drained", "drained-then-grown-by-one", "one-popped", "grown-by-one-then-popped"} {
+				o := toRV(v)
+				model := v.clone()
+				hist := []string{"pre:" + pre}
+				pops, pushes := 0, 0
+				switch pre {
+				case "drained":
+					pops = len(model.Elems)
+				case "drained-then-grown-by-one":
+					pops, pushes = len(model.Elems), 1
+				case "one-popped":
+					pops = 1
+				case "grown-by-one-then-popped":
+					callOn(o, "push", *toRV(freshFor(t.Elem)))
+					pops = 1
+				}
+				if pops > len(model.Elems) && pre != "grown-by-one-then-popped" {
+					continue
+				}
+				for i := 0; i < pops; i++ {
+					callOn(o, "pop")
+					if pre != "grown-by-one-then-popped" {
+						model.Elems = model.Elems[:len(model.Elems)-1]
+					}
+				}
+				for i := 0; i < pushes; i++ {
+					callOn(o, "push", *toRV(freshFor(t.Elem)))
+					model.Elems = append(model.Elems, freshFor(t.Elem))
+				}
+				var c *value.Value
+				if pc, _ := guard("runtime/value.Clone", func() { c = (*o).Clone() }); pc != "" {
+					fail(pc, v, hist, "Clone panicked")
+					continue
+				}
+				mo, mc := model.clone(), model.clone()
+				if pc := callOn(o, "push", *toRV(freshFor(t.Elem))); pc != "" {
+					fail(pc, v, append(hist, "original:push"), "push panicked")
+					continue
+				}
+				mo.Elems = append(mo.Elems, freshFor(t.Elem))
+				if pc := callOn(c, "push", *toRV(other())); pc != "" {
+					fail(pc, v, append(hist, "clone:push"), "push panicked")
+					continue
+				}
+				mc.Elems = append(mc.Elems, other())
+				nseq++
+				names := append(hist, "original:push", "clone:push-another")
+				if m, e := fromRV(*o); e != nil || !mEqual(m, mo) {
+					fail("CLONE:shares-state", v, names, fmt.Sprintf("after both sides pushed, the original reads %v (%v), expected %s", m, e, mo))
+				}
+				if m, e := fromRV(*c); e != nil || !mEqual(m, mc) {
+					fail("CLONE:shares-state", v, names, fmt.Sprintf("after both sides pushed, the clone reads %v (%v), expected %s", m, e, mc))
+				}
+			}
+		}
+	}
 	r.Trans(nseq)
 	r.Outcome("clone:types")
 	r.Distinct(fmt.Sprintf("clone|%s|%d|%d", t, len(vals), nseq))
